@@ -380,7 +380,8 @@ def npu_segment(b, cur, feats, live):
         return None
     n, h, w, c = xt.shape
     kind = rng.choice(["conv", "conv1x1", "dwconv", "maxpool", "avgpool", "add_self", "add_skip", "mul_const", "relu", "sigmoid",
-                       "tanh", "lrelu", "concat2", "pad", "slice", "split_concat", "softmax", "reshape_pair", "minmax", "resize", "fc"])
+                       "tanh", "lrelu", "concat2", "pad", "slice", "split_concat", "softmax", "reshape_pair", "minmax", "resize", "fc",
+                       "resize_same"])
     b.net.desc.append(kind)
     if kind == "conv":
         k = rng.choice([(1, 1), (3, 3), (3, 3), (2, 2), (1, 3)])
@@ -440,6 +441,15 @@ def npu_segment(b, cur, feats, live):
         return b.binary(rng.choice(["MINIMUM", "MAXIMUM"]), cur, cur)
     if kind == "resize" and h * w <= 64:
         return b.resize(cur, 2, rng.choice(["RESIZE_BILINEAR", "RESIZE_NEAREST_NEIGHBOR"]))
+    if kind == "resize_same":
+        # resize to the size it already has: Vela turns it into a no-op; its result must survive (name, consumers)
+        st = b.const([2], "int32", [h, w], name=b.fresh("size"))
+        o = b.fm(xt.shape, xt.dtype, scale=xt.scales[0], zp=xt.zps[0])
+        rk = rng.choice(["RESIZE_BILINEAR", "RESIZE_NEAREST_NEIGHBOR"])
+        b.net.ops.append(Op(rk, [cur, st], [o], ("ResizeBilinearOptions" if rk == "RESIZE_BILINEAR" else "ResizeNearestNeighborOptions",
+                                                 dict(AlignCorners=False, HalfPixelCenters=False))))
+        feats.add("resize_to_same_size")
+        return o
     if kind == "fc":
         flat = b.reshape(cur, [1, h * w * c])
         if h * w * c > 4096:
@@ -528,5 +538,93 @@ def c11_net(rng, idx=0):
                 t.qmin = [float(np.float32(t.scales[0] * (lo - z)))]
                 t.qmax = [float(np.float32(t.scales[0] * (hi - z)))]
                 feats.add("quantisation_min_max")
+    unusual_encodings(rng, net, feats)
     net.features = feats
     return net
+
+
+def unusual_encodings(rng, net, feats):
+    """Legal but unusual encodings (netgen.ENCODINGS) on tensors that survive into the output: subgraph inputs / outputs and
+    operands of operators, so that a reader/writer that mis-reads an absent optional field is seen. About 45 % of the networks
+    get one to three of them."""
+    if rng.random() >= 0.45:
+        return
+    used = sorted({i for o in net.ops for i in list(o.inputs) + list(o.outputs) if i >= 0} | set(net.inputs) | set(net.outputs))
+    io = sorted(set(net.inputs) | set(net.outputs))
+    names = [t.name for t in net.tensors]
+
+    def pick(pred):
+        pool = [i for i in (io if rng.random() < 0.5 else used) if pred(net.tensors[i]) and not getattr(net.tensors[i], "enc", None)]
+        return rng.choice(pool) if pool else None
+
+    def quantised(t):
+        return t.scales is not None and len(t.scales) == 1 and t.dtype in ("int8", "uint8", "int16")
+
+    def plain(t):
+        return t.scales is None and t.data is None and getattr(t, "qmin", None) is None
+
+    for kind in rng.sample(["no_zp", "no_zp", "no_scale", "empty_qvectors", "empty_quant_table", "minmax_only", "qdim_per_tensor",
+                            "no_name", "no_shape", "shape_signature", "empty_data_buffer", "own_empty_buffer", "net"], rng.randint(1, 3)):
+        if kind == "no_zp":
+            # scale present, zero_point vector absent (= zero point 0)
+            i = pick(quantised)
+            if i is not None:
+                net.tensors[i].zps = [0]
+                if getattr(net.tensors[i], "qmin", None) is not None:
+                    net.tensors[i].qmin = net.tensors[i].qmax = None
+                net.tensors[i].enc = {"no_zp"}
+                feats.add("enc_scale_without_zero_point")
+        elif kind == "no_scale":
+            # zero_point without scale, on a tensor that is not quantised (float / int32 / bool): carries no meaning
+            i = pick(plain)
+            if i is not None:
+                net.tensors[i].scales, net.tensors[i].zps = [1.0], [rng.choice([0, 0, 3])]
+                net.tensors[i].enc = {"no_scale"}
+                feats.add("enc_zero_point_without_scale")
+        elif kind in ("empty_qvectors", "empty_quant_table"):
+            i = pick(plain)
+            if i is not None:
+                net.tensors[i].enc = {kind}
+                feats.add("enc_" + kind)
+        elif kind == "minmax_only":
+            i = pick(plain)
+            if i is not None and net.tensors[i].dtype == "float32":
+                net.tensors[i].qmin, net.tensors[i].qmax = [-1.0], [1.0]
+                net.tensors[i].enc = {"minmax_only"}
+                feats.add("enc_min_max_without_scale")
+        elif kind == "qdim_per_tensor":
+            i = pick(lambda t: quantised(t) and len(t.shape) >= 1)
+            if i is not None:
+                net.tensors[i].qdim = rng.randint(1, len(net.tensors[i].shape)) - 1 or len(net.tensors[i].shape) - 1
+                net.tensors[i].enc = {"qdim_per_tensor"}
+                feats.add("enc_quantized_dimension_on_per_tensor_scale")
+        elif kind == "no_name":
+            # one unnamed tensor (two would be duplicate names: outside the domain of the name-based comparison)
+            i = pick(lambda t: True)
+            if i is not None and "" not in names:
+                net.tensors[i].name = ""
+                net.tensors[i].enc = {"no_name"}
+                names.append("")
+                feats.add("enc_tensor_without_name")
+        elif kind == "no_shape":
+            i = pick(lambda t: t.shape == [])
+            if i is not None:
+                net.tensors[i].enc = {"no_shape"}
+                feats.add("enc_scalar_without_shape_vector")
+        elif kind == "shape_signature":
+            i = pick(lambda t: len(t.shape) >= 1)
+            if i is not None:
+                net.tensors[i].enc = {"shape_signature"}
+                feats.add("enc_explicit_shape_signature")
+        elif kind in ("empty_data_buffer", "own_empty_buffer"):
+            i = pick(lambda t: t.data is None)
+            if i is not None:
+                if kind == "own_empty_buffer":
+                    net.tensors[i].own_empty_buffer = True
+                else:
+                    net.tensors[i].enc = {kind}
+                feats.add("enc_" + kind)
+        else:
+            net.enc = set(rng.sample(["old_opcodes", "no_sg_name", "no_description"], rng.randint(1, 3)))
+            for e in net.enc:
+                feats.add("enc_" + e)
